@@ -382,12 +382,27 @@ def r4_resets(ctx):
         """The offset handed to the reset comes from Arena::offset() read at a point that no evaluation precedes."""
         offs = [o for o in fn.calls() if (o.callee or "").endswith("Arena::offset") and "frame" in sh(ne(fn.deep(o.args[0])))]
         src_ok = False
+        opt_locals = set()
+
+        def root_place(op, depth=0):
+            pl = (op.get("move") or op.get("copy")) if isinstance(op, dict) else None
+            if pl is None:
+                return None
+            if pl["p"]:
+                return pl
+            defs = fn.whole_defs(pl["l"])
+            if len(defs) == 1 and defs[0][1] != "t" and defs[0][2]["rv"]["k"] == "use" and depth < 6:
+                return root_place(defs[0][2]["rv"]["a"], depth + 1)
+            return pl
+        rp = root_place(offset_arg)
+        if rp is not None and rp["p"] and "Option" in fn.locals[rp["l"]]["ty"]:
+            # the payload of an Option local: that local must be Some(frame.offset()) wherever it is Some
+            opt_locals.add(rp["l"])
+            for (bi, k, det) in origins(fn, {"copy": {"l": rp["l"], "p": []}}, 8):
+                if k == "agg" and det[1] == "Some" and any(kk == "call" and dd[0].endswith("Arena::offset") for (_b, kk, dd) in origins(fn, det[2][0], 6)):
+                    src_ok = True
         for (bi, k, det) in origins(fn, offset_arg, 8):
-            if k == "place" and "frame_offset" in str(det):
-                src_ok = True
             if k == "call" and det[0].endswith("Arena::offset"):
-                src_ok = True
-            if k == "agg" and det[1] == "Some":
                 src_ok = True
         if not offs or not src_ok:
             ctx.bad("%s|offset-source" % label, fn.where(reset_call.block), "the frame offset handed to the reset is not one read from frame.offset()")
@@ -398,7 +413,7 @@ def r4_resets(ctx):
         for S in sorted(fn.live):
             if fn.blocks[S]["t"]["k"] == "switch":
                 si = fn.switch_info(S)
-                if si["kind"] == "discr" and fn.locals[si["of"]["l"]]["name"] == "frame_offset":
+                if si["kind"] == "discr" and si["ty"].endswith("Option") and si["of"]["l"] in opt_locals:
                     skip += [(S, lab) for lab, _ in fn.succ[S] if label_names(fn, S, [lab], si) == {"None"}]
         for w in work_calls:
             r = fn.reach_from_succ(w.block, removed_nodes=[reset_call.block], removed_edges=skip)
@@ -414,6 +429,15 @@ def r4_resets(ctx):
     for c, recv in frame_resets(es):
         work = [w for w in es.calls_to("runtime::Runtime::exec_block_with_flow") if c.block in es.reach_from_succ(w.block)]
         captured_before(es, c, c.args[1], work, "loop")
+        # the iteration's memory is released only on the path that goes round the loop again: whatever leaves exec_stmt after
+        # the reset has been produced after it (the next evaluation of the condition, the next run of the body).  A `return`
+        # out of the body carries a value that lives in that memory; it has to be on its way before the reset.
+        fresh = [w.block for w in es.calls_to("runtime::Runtime::exec_block_with_flow") + es.calls_to("runtime::Runtime::eval_expr") if w.block in es.reach_from_succ(c.block)]
+        r = es.reach_from_succ(c.block, removed_nodes=fresh)
+        if r & set(es.exits()):
+            ctx.bad("loop|reset-before-leaving", es.where(c.block), "after the per-iteration frame reset exec_stmt can still return what the finished iteration produced (the body's Return value, for instance) without evaluating anything new: that value lives in the memory just released, so `return` from inside a loop hands out recycled bytes")
+        else:
+            ctx.ok("loop|reset-only-when-continuing", es.where(c.block), "every exit after the reset passes a new evaluation of the condition or body")
     efc = ctx.need("runtime::Runtime::eval_function_call")
     ctx.touch(efc)
     for rel in efc.calls_to("runtime::Runtime::relocate_return_value"):
@@ -436,6 +460,7 @@ def r5_promotion_complete(ctx):
             continue
         region = vp.reach([tgt], removed_nodes=[S])
         callees = {c.callee for c in vp.calls() if c.block in region}
+        callees |= {c.callee for k in ctx.lib.closures_of(vp.id) if any(par is vp and b in region for par, b, rv in ctx.lib.closure_sites(k)) for c in k.calls()}
         if name in want:
             if want[name] in callees:
                 ctx.ok("promote|%s" % name, vp.where(tgt), "calls %s" % want[name].split("::")[-2:])
@@ -462,7 +487,8 @@ def r5_promotion_complete(ctx):
                 if "Array" in label_names(g, S2, [lab], si2):
                     region = g.reach([tgt], removed_nodes=[S2])
                     only = {b for b in region if g.edge_dominated(b, S2, [lab])}
-                    rec = any(c.callee == fid and c.block in only for c in g.calls())
+                    arm_closures = [k for k in ctx.lib.closures_of(g.id) if any(par is g and b in only for par, b, rv in ctx.lib.closure_sites(k))]
+                    rec = any(c.callee == fid and c.block in only for c in g.calls()) or any(c.callee == fid for k in arm_closures for c in k.calls())
                     # ... and the arm has no way round the item loop: every value it returns is a *new* vector filled
                     # by that loop, never the incoming vector itself (whatever arena that vector lives on, its items
                     # may still borrow storage that is about to be released)
@@ -495,6 +521,18 @@ def r5_promotion_complete(ctx):
                                 ctx.ok("copy-routine|%s|items-through-recursion" % short, g.where(c.block), "each pushed item is the result of %s on the source item" % short)
                             else:
                                 ctx.bad("copy-routine|%s|item-not-copied" % short, g.where(c.block), "the Array arm of Value::%s pushes an item that did not go through %s (%s): a string inside it keeps borrowing storage that is released" % (short, short, prod[:2]))
+                            continue
+                        # `extend(iter.map(|item| item.<routine>(..)))` is the item loop in another spelling
+                        src_txt = " ".join(sh(ne(g.deep(a))) for a in c.args[1:])
+                        mapped = False
+                        for k in arm_closures:
+                            tag = k.id.split("::")[-1]
+                            if ("map(" in src_txt or "filter_map(" in src_txt) and tag in src_txt:
+                                rets = [(kk, d[0] if kk == "call" else d) for (bi, kk, d) in origins(k, {"copy": {"l": 0, "p": []}}, 6)]
+                                if rets and all(kk == "call" and d == fid for kk, d in rets):
+                                    mapped = True
+                        if mapped:
+                            ctx.ok("copy-routine|%s|items-through-recursion" % short, g.where(c.block), "%s over map(|item| item.%s(..))" % (last, short))
                             continue
                         # bulk transfer: acceptable only under a dominating `all(|item| matches!(item, <heap-free kinds>))`
                         guarded = False
@@ -554,6 +592,8 @@ def r5_promotion_complete(ctx):
                     want = ("self.frame", "frame")
                 ncall += 1
                 got = sh(ne(fn.deep(c.args[2]))).lstrip("&")
+                if "{closure" in fn.id:
+                    got = ctx.lib.captured_text(fn, got).lstrip("&*")
                 short = pid.split("::")[-1]
                 ordn = sum(1 for r in ctx.records if r["rule"] == ctx.rule and r["instance"].startswith("frame-argument|%s#" % short))
                 if got in want:
